@@ -24,6 +24,8 @@ TOL = 1e-7
 
 def gen_case(rng, big):
     n = rng.randint(11, 40 if big else 25) if rng.random() < 0.5 else rng.randint(2, 10)
+    if rng.random() < 0.12:
+        n = rng.randint(33, 70)         # several dozen alternatives
     m = rng.randint(2, 4)
     mode = rng.choice(["int", "dyadic", "tiny"])
     if mode == "int":
@@ -35,8 +37,17 @@ def gen_case(rng, big):
     objs = [rng.choice([1, 1, -1]) for _ in range(m)]
     for j in rng.sample(range(m), 2):
         objs[j] = 1
+    twins = m >= 3 and rng.random() < 0.15
+    if twins:
+        # the same indicator entered twice (same values, same sense)
+        j, k = rng.sample(range(m), 2)
+        for r in mtx:
+            r[k] = r[j]
+        objs[k] = objs[j]
+        if sum(o == 1 for o in objs) < 2:
+            objs = [1] * m
     b = None
-    if rng.random() < 0.35:
+    if rng.random() < (0.35 if not twins else 0.8):
         b = []
         for j in range(m):
             col = [r[j] for r in mtx]
@@ -55,7 +66,7 @@ def gen_case(rng, big):
     return {"matrix": mtx, "objectives": objs, "weights": [1.0] * m, "b": b,
             "alternatives": [f"A{i}" for i in range(n)] if rng.random() < 0.7 else gen.labels(rng, n, [], "Q"),
             "criteria": gen.labels(rng, m, gen.LABEL_POOL_C, "C"),
-            "method": {"name": "simus", "rank_by": rng.choice([1, 2])}, "mode": mode, "tags": []}
+            "method": {"name": "simus", "rank_by": rng.choice([1, 2])}, "mode": mode, "tags": ["twin_criteria"] if twins else []}
 
 
 def stage_arg(case, z):
